@@ -170,7 +170,7 @@ CL_GRID = [
     {"kind": "lt", "d": 1}, {"kind": "cut-in-char"}, {"kind": "eq"},
     {"kind": "eq", "junk": 5}, {"kind": "eq", "junk": 10000},
     {"kind": "gt", "d": 1}, {"kind": "gt-limit", "d": 1},
-    {"kind": "bad", "text": "abc"},
+    {"kind": "bad", "text": "abc"}, {"kind": "bad", "text": "1\xb2"}, {"kind": "bad", "text": "9" * 4000},
 ]
 LIMIT_GRID = [{"kind": "0"}, {"kind": "1"}, {"kind": "n-", "d": 1}, {"kind": "n"},
               {"kind": "n+", "d": 1}, {"kind": "2MiB"}]
@@ -273,7 +273,13 @@ def hyp_cases(tier):
             st.builds(lambda x: {"kind": "gt-limit", "d": x}, st.integers(1, 5000)),
             st.builds(lambda t: {"kind": "bad", "text": t},
                       st.sampled_from(["abc", "12abc", "1.5", "0x10", "1e3", "1,000",
-                                       "twelve", "12 13", "--1"]))))
+                                       "twelve", "12 13", "--1",
+                                       # digits for str.isdigit() / str.isdecimal() that int() or
+                                       # a careless parser treats differently; huge numbers
+                                       # (spellings int() reads as a number - surrounding blanks, '+5',
+                                       # '1_0', non-ASCII decimal digits - are left out: whether a
+                                       # server should is not C13's question)
+                                       "1\xb2", "\xb3", "9" * 4000, "\x00", "5\x00", "\xb9\xb2"]))))
         lim = draw(st.one_of(
             st.just({"kind": "0"}), st.just({"kind": "1"}),
             st.builds(lambda x: {"kind": "n-", "d": x}, d), st.just({"kind": "n"}),
